@@ -89,6 +89,12 @@ pub enum Task {
     Ast(usize),
     TypeParse(usize),
     FieldSet(usize),
+    /// two operation sources into one ExecutableDocument builder against the shared schema
+    ExecBuilder(usize, usize),
+    /// one `Parser` value reused for several parses (field sets, a type, an AST)
+    Reuse(usize, usize),
+    /// line/column lookups on the shared schema's source file (a per-file cache shared by all threads)
+    LineCol(usize),
 }
 
 impl Task {
@@ -104,6 +110,9 @@ impl Task {
             Task::Ast(i) => format!("ast:{i}"),
             Task::TypeParse(i) => format!("type:{i}"),
             Task::FieldSet(i) => format!("fieldset:{i}"),
+            Task::ExecBuilder(a, b) => format!("xb:{a}:{b}"),
+            Task::Reuse(a, b) => format!("reuse:{a}:{b}"),
+            Task::LineCol(k) => format!("linecol:{k}"),
         }
     }
     fn from_s(s: &str) -> Option<Task> {
@@ -119,13 +128,22 @@ impl Task {
             ["ast", i] => Task::Ast(i.parse().ok()?),
             ["type", i] => Task::TypeParse(i.parse().ok()?),
             ["fieldset", i] => Task::FieldSet(i.parse().ok()?),
+            ["xb", a, b] => Task::ExecBuilder(a.parse().ok()?, b.parse().ok()?),
+            ["reuse", a, b] => Task::Reuse(a.parse().ok()?, b.parse().ok()?),
+            ["linecol", k] => Task::LineCol(k.parse().ok()?),
             _ => return None,
         })
     }
     fn needs_shared(&self) -> bool {
         matches!(
             self,
-            Task::Op(_) | Task::Serialize | Task::Introspect | Task::FieldSet(_)
+            Task::Op(_)
+                | Task::Serialize
+                | Task::Introspect
+                | Task::FieldSet(_)
+                | Task::ExecBuilder(..)
+                | Task::Reuse(..)
+                | Task::LineCol(_)
         )
     }
 }
@@ -231,8 +249,14 @@ pub fn gen_case(run_seed: u64, tier: Tier, force_cold: Option<bool>) -> Case {
                     9 => Task::Introspect,
                     10 => Task::Multi(wl.usize(SCHEMAS.len()), wl.usize(SCHEMAS.len())),
                     _ => {
-                        let k = wl.below(4);
-                        if k == 0 {
+                        let k = wl.below(7);
+                        if k == 5 {
+                            Task::Reuse(wl.usize(FIELD_SETS.len()), wl.usize(FIELD_SETS.len()))
+                        } else if k == 6 {
+                            Task::LineCol(wl.usize(4))
+                        } else if k == 4 {
+                            Task::ExecBuilder(wl.usize(OPS.len()), wl.usize(OPS.len()))
+                        } else if k == 0 {
                             Task::Ast(wl.usize(OPS.len()))
                         } else if k == 1 {
                             Task::TypeParse(wl.usize(TYPES.len()))
@@ -345,7 +369,13 @@ fn run_task(task: &Task, shared: Option<&Arc<Valid<Schema>>>, shared_ids: &BTree
         Task::TypeParse(i) => match apollo_compiler::ast::Type::parse(TYPES[*i], format!("type{i}.graphql")) {
             Ok(ty) => TaskResult {
                 output: format!("TYPE OK {ty}"),
-                ids: vec![],
+                // the names inside the returned type carry the file id of this parse
+                ids: ty
+                    .inner_named_type()
+                    .location()
+                    .map(|l| l.file_id().__verif_raw())
+                    .into_iter()
+                    .collect(),
             },
             Err(errors) => TaskResult {
                 output: format!("TYPE ERR\n{}", pipeline::diag_bundle(&errors)),
@@ -374,6 +404,76 @@ fn run_task(task: &Task, shared: Option<&Arc<Valid<Schema>>>, shared_ids: &BTree
                     ids: source_ids(&e.partial.sources, shared_ids),
                 },
             }
+        }
+        Task::ExecBuilder(a, b) => {
+            let schema = shared.expect("shared schema");
+            let parts = vec![
+                (OPS[*a].to_string(), "ops_a.graphql".to_string()),
+                (OPS[*b].to_string(), "ops_b.graphql".to_string()),
+            ];
+            let (output, ids) = pipeline::exec_builder_bundle(schema, &parts);
+            TaskResult {
+                output,
+                ids: ids
+                    .into_iter()
+                    .filter(|id| *id != 1 && !shared_ids.contains(id))
+                    .collect(),
+            }
+        }
+        Task::Reuse(a, b) => {
+            let schema = shared.expect("shared schema");
+            let mut parser = apollo_compiler::parser::Parser::new();
+            let mut output = String::new();
+            let mut ids = vec![];
+            for (k, i) in [*a, *b].into_iter().enumerate() {
+                let (text, ok_ids) = match parser.parse_field_set(
+                    schema,
+                    apollo_compiler::name!("User"),
+                    FIELD_SETS[i],
+                    format!("key_{k}.graphql"),
+                ) {
+                    Ok(fs) => (
+                        format!("FIELDSET OK {}", fs.serialize().no_indent()),
+                        source_ids(&fs.sources, shared_ids),
+                    ),
+                    Err(e) => (
+                        format!("FIELDSET ERR\n{}", pipeline::diag_bundle(&e.errors)),
+                        source_ids(&e.partial.sources, shared_ids),
+                    ),
+                };
+                output.push_str(&text);
+                output.push('\n');
+                ids.extend(ok_ids);
+            }
+            match parser.parse_ast(OPS[*a % OPS.len()], "reuse_ast.graphql") {
+                Ok(doc) => ids.extend(source_ids(&doc.sources, &none)),
+                Err(e) => ids.extend(source_ids(&e.partial.sources, &none)),
+            }
+            if let Ok(ty) = parser.parse_type(TYPES[*b % 2], "reuse_type.graphql") {
+                ids.extend(ty.inner_named_type().location().map(|l| l.file_id().__verif_raw()));
+            }
+            TaskResult { output, ids }
+        }
+        Task::LineCol(k) => {
+            let schema = shared.expect("shared schema");
+            let mut output = String::new();
+            // every k-th definition's name and fields: offsets on many different lines of one file
+            for (i, (name, def)) in schema.types.iter().enumerate() {
+                if i % (*k + 1) != 0 {
+                    continue;
+                }
+                if let Some(range) = name.line_column_range(&schema.sources) {
+                    output.push_str(&format!("{name} {}:{}..{}:{}\n", range.start.line, range.start.column, range.end.line, range.end.column));
+                }
+                if let apollo_compiler::schema::ExtendedType::Object(o) = def {
+                    for (fname, f) in &o.fields {
+                        if let Some(range) = f.line_column_range(&schema.sources) {
+                            output.push_str(&format!("  {fname} {}:{}..{}:{}\n", range.start.line, range.start.column, range.end.line, range.end.column));
+                        }
+                    }
+                }
+            }
+            TaskResult { output, ids: vec![] }
         }
         Task::Pack(raw) => {
             let mut out = String::new();
@@ -660,7 +760,7 @@ fn exec_case_inner(case: &Case) -> CaseResult {
                     }
                     continue;
                 }
-                if wrapped && matches!(task, Task::Multi(..)) {
+                if wrapped && matches!(task, Task::Multi(..) | Task::ExecBuilder(..)) {
                     // diagnostics of a multi-source build are ordered by (file id, offset): after
                     // a counter wrap the second source may get the smaller id, by design
                     continue;
